@@ -272,8 +272,15 @@ func (e *env) run(sc *Scenario) {
 	}
 	// The watchdog is not a verdict: a scenario that does not finish is
 	// reported as inconclusive with its description.
-	e.rec.Inconclusive(fmt.Sprintf("watchdog (%s): scenario did not finish: %+v", e.watchdog, *sc))
-	st.closeAll()
+	if fns, stacks := mon.LibLockWaiters("Manticore/network/netbios/nbt."); len(fns) > 0 {
+		// not a matter of speed: a call of the transport has been parked on a lock inside the
+		// library for the whole watchdog period while its peer was ready — the payload it
+		// carries is never delivered. The stack is the witness.
+		e.rec.Violation(sc.Idx, "transport:blocked-on-library-lock:"+fns[0], fmt.Sprintf("%s has waited on a lock inside the library for %s while the peer side was being served (scenario %s/%s)", fns[0], e.watchdog, sc.Kind, sc.Peer), map[string]any{"scenario": sc, "stack": stacks[0]})
+	} else {
+		e.rec.Inconclusive(fmt.Sprintf("watchdog (%s): scenario did not finish: %+v", e.watchdog, *sc))
+	}
+	go st.closeAll() // Close itself may be parked on the same lock
 	select {
 	case <-done:
 	case <-time.After(30 * time.Second):
